@@ -37,7 +37,8 @@ pub struct Roles {
     pub canon: Vec<Option<&'static str>>,
     /// over-approximated callers of every function
     pub callers: Vec<BTreeSet<usize>>,
-    /// the function's name occurs in a top-level macro (`macro_rules!` body …)
+    /// the function's name occurs in a top-level macro (`macro_rules!` body …) or in the initialiser of a
+    /// `const` / `static`
     pub in_macro: Vec<bool>,
 }
 
@@ -75,6 +76,10 @@ impl Roles {
         let mut macro_idents = BTreeSet::new();
         for (_, _, ts) in &krate.macro_items {
             idents(ts.clone(), &mut macro_idents);
+        }
+        // a function stored in a `const` / `static` (a table of function pointers) can be called from anywhere
+        for c in &krate.consts {
+            idents(quote::ToTokens::to_token_stream(&c.expr), &mut macro_idents);
         }
         let in_macro: Vec<bool> = krate.fns.iter().map(|f| macro_idents.contains(&f.name)).collect();
 
